@@ -140,7 +140,7 @@ impl<'a> LspServer<'a> {
             }
             Err(req) => req,
         };
-        let _request = match Self::cast_request::<request::SemanticTokensFullRequest>(req) {
+        let request = match Self::cast_request::<request::SemanticTokensFullRequest>(req) {
             Ok(params) => {
                 let uri = params.text_document.uri;
                 let token_result = self.project.tokenize(&uri);
@@ -166,6 +166,14 @@ impl<'a> LspServer<'a> {
             }
             Err(req) => req,
         };
+
+        // Every request must be answered: say that the method is not implemented
+        let response = lsp_server::Response::new_err(
+            req_id,
+            lsp_server::ErrorCode::MethodNotFound as i32,
+            format!("Method not implemented: {}", request.method),
+        );
+        self.sender.send(Message::Response(response)).unwrap();
         ""
     }
 
